@@ -52,6 +52,9 @@ ASSUMPTIONS = [
     "multiballs with ball_locks are combined with a multiball_lock (mode device), not with a ball_hold",
     "while the loop spins at one instant the virtual clock is moved to the next scheduled timer (as real time would "
     "pass), for at most 120 forced seconds per episode; only a spin that survives that is a livelock",
+    "locks accept a manual request_ball event that can never be served (nothing feeds a lock); such a request stays "
+    "queued at the lock and is excused by the delivery/request_served clauses; it sits in front of the plunger/trough in "
+    "handler registration order, so every balldevice_balls_available notification has to get past it",
     "zero_time_livelock: 100000 loop iterations without the virtual clock advancing (deterministic, not wall clock)",
     "same physical envelope as C04 (no diverters, one ball per pulse, no jam switches, entrance devices without "
     "undetectable faults, bounce on overflow)",
